@@ -3,8 +3,10 @@ package validator
 import (
 	"bytes"
 	"encoding/json"
+	"errors"
 	"fmt"
 	e "github.com/aml-org/amf-custom-validator/pkg/events"
+	"io"
 )
 
 func ProcessInput(jsonldText string, debug bool, receiver *chan e.Event) (result any, err error) {
@@ -21,6 +23,11 @@ func ProcessInput(jsonldText string, debug bool, receiver *chan e.Event) (result
 	var input any
 	if err := decoder.Decode(&input); err != nil {
 		return nil, err
+	}
+	// the data text must be one JSON document: anything but blanks after it (a second document, the rest of a text cut at
+	// the front) means the text is not what was validated
+	if _, err := decoder.Token(); err != io.EOF {
+		return nil, errors.New("unexpected text after the JSON document")
 	}
 	dispatchEvent(e.NewEvent(e.InputDataParsingDone), receiver)
 
